@@ -1,1 +1,27 @@
 import RaftLogModel.Props.C03
+open RaftLog
+#print axioms c03_cutOf_spec
+#print axioms c03_crashImage_files
+#print axioms c03_crash_images_exist
+#print axioms c03_parsesToPrefix_spec
+#print axioms c03_file_is_record_prefix
+#print axioms c03_parsesLo_spec
+#print axioms c03_witnesses_spec
+#print axioms c03_recovered_is_journal_prefix_partial
+#print axioms c03_recovered_is_journal_prefix_partial'
+#print axioms c03_recovered_sys_open
+#print axioms c03_removals_needed
+#print axioms c03_expansion_reaches_same
+#print axioms c03_prefix_is_a_history_prefix_partial
+#print axioms c03_marker_needed
+#print axioms c03_marker_zero_of_no_drop
+#print axioms c03_acked_is_durable
+#print axioms c03_ack_only_raises
+#print axioms c03_positive_callback_acks
+#print axioms c03_flush_sends_journal_end
+#print axioms c03_acked_flush
+#print axioms c03_crash_prefix_partial
+#print axioms c03_crash_prefix_no_drop
+#print axioms c03_acked_writes_survive_partial
+#print axioms c03_no_drop_facts
+#print axioms c03_acked_writes_survive_no_drop
